@@ -4,4 +4,208 @@ import MysyncModel.App.Repair
 namespace RepairLemmas
 open NS Repair
 
+/-! ### `tryRepair` / `markRunning` -/
+
+/-- the three possible outcomes of `tryRepair` on an existing repair state -/
+theorem tryRepair_some_cases (cfg : Cfg) (s : RepairState) (now : Int) (master : String) (c : Bool) :
+    (tryRepair cfg (some s) now master c = ([], some s) ∧
+      (cooldownPassed cfg s now = false ∨ suitable cfg s = none)) ∨
+    (tryRepair cfg (some s) now master c =
+        ([.startSlave], some { s with startCount := s.startCount + 1, lastAttempt := now }) ∧
+      cooldownPassed cfg s now = true ∧ suitable cfg s = some .startSlave ∧ s.startCount < cfg.maxAttempts) ∨
+    (tryRepair cfg (some s) now master c =
+        ([.resetSlaveAlgorithm master], some { s with resetCount := s.resetCount + 1, lastAttempt := now }) ∧
+      cooldownPassed cfg s now = true ∧ suitable cfg s = some .resetSlave ∧ ¬ s.startCount < cfg.maxAttempts ∧
+      cfg.aggressive = true ∧ s.resetCount < cfg.maxAttempts) := by
+  cases hcd : cooldownPassed cfg s now
+  · simp [tryRepair, hcd]
+  · by_cases h1 : s.startCount < cfg.maxAttempts
+    · have hs : suitable cfg s = some .startSlave := by simp [suitable, h1]
+      simp [tryRepair, hcd, hs, h1]
+    · by_cases h2 : cfg.aggressive = true ∧ s.resetCount < cfg.maxAttempts
+      · have hs : suitable cfg s = some .resetSlave := by simp [suitable, h1, h2.1, h2.2]
+        simp [tryRepair, hcd, hs, h1, h2.1, h2.2]
+      · have hs : suitable cfg s = none := by
+          simp only [suitable, h1, if_false]
+          rw [if_neg]
+          simpa using h2
+        simp [tryRepair, hcd, hs]
+
+theorem tryRepair_none (cfg : Cfg) (now : Int) (master : String) (c : Bool) :
+    tryRepair cfg none now master c =
+      if c then ([.createRepairState], some { lastAttempt := now }) else ([], none) := by
+  cases c <;> simp [tryRepair]
+
+/-- `tryRepair` resets the replica only towards `master`, and only when entitled -/
+theorem tryRepair_reset_mem (cfg : Cfg) (rs : Option RepairState) (now : Int) (master : String) (c : Bool) (to : String)
+    (h : Act.resetSlaveAlgorithm to ∈ (tryRepair cfg rs now master c).1) :
+    to = master ∧ cfg.aggressive = true ∧
+    ∃ s, rs = some s ∧ cooldownPassed cfg s now = true ∧ s.startCount ≥ cfg.maxAttempts ∧ s.resetCount < cfg.maxAttempts := by
+  cases rs with
+  | none => rw [tryRepair_none] at h; cases c <;> simp at h
+  | some s =>
+    rcases tryRepair_some_cases cfg s now master c with ⟨e, _⟩ | ⟨e, _⟩ | ⟨e, hcd, _, h1, ha, h2⟩
+    · rw [e] at h; simp at h
+    · rw [e] at h; simp at h
+    · rw [e] at h
+      simp only [List.mem_singleton, Act.resetSlaveAlgorithm.injEq] at h
+      exact ⟨h, ha, s, rfl, hcd, by omega, h2⟩
+
+theorem tryRepair_changeMaster_not_mem (cfg : Cfg) (rs : Option RepairState) (now : Int) (master : String) (c : Bool) (to : String) :
+    Act.changeMaster to ∉ (tryRepair cfg rs now master c).1 := by
+  cases rs with
+  | none => rw [tryRepair_none]; cases c <;> simp
+  | some s =>
+    rcases tryRepair_some_cases cfg s now master c with ⟨e, _⟩ | ⟨e, _⟩ | ⟨e, _⟩ <;> rw [e] <;> simp
+
+theorem markRunning_mem (cfg : Cfg) (rs : Option RepairState) (now : Int) (p : Bool) (a : Act)
+    (h : a ∈ (markRunning cfg rs now p).1) : a = .deleteRepairState := by
+  unfold markRunning at h
+  split at h
+  · simp at h
+  · split at h <;> simp_all
+
+/-! ### `repairSlave` as equations on its two components -/
+
+theorem repairSlave_fst (cfg : Cfg) (host : String) (st : NodeState) (master : String) (rs : Option RepairState)
+    (now : Int) (c p : Bool) :
+    (repairSlave cfg host st master rs now c p).1 =
+      (if st.isReadOnly then [] else [Act.setReadOnly]) ++
+      (if st.isMaster then [.setOffline, .semiSyncDisable, .changeMaster master, .setRecovery]
+       else if st.isCascade then [.cascade]
+       else match st.slave with
+        | none => []
+        | some sl =>
+          (if sl.masterHost != master then [.changeMaster master]
+           else if sl.state == .stopped then [.startSlave] else []) ++
+          (if sl.state == .error then (if st.permBroken then [] else (tryRepair cfg rs now master c).1)
+           else (markRunning cfg rs now p).1)) := by
+  unfold repairSlave
+  generalize st.slave = o
+  generalize st.permBroken = pb
+  cases o with
+  | none => cases st.isReadOnly <;> cases st.isMaster <;> cases st.isCascade <;> simp
+  | some sl =>
+    cases st.isReadOnly <;> cases st.isMaster <;> cases st.isCascade <;> cases pb <;> simp <;> split <;> simp
+
+theorem repairSlave_snd (cfg : Cfg) (host : String) (st : NodeState) (master : String) (rs : Option RepairState)
+    (now : Int) (c p : Bool) :
+    (repairSlave cfg host st master rs now c p).2 =
+      (if st.isMaster then rs
+       else if st.isCascade then rs
+       else match st.slave with
+        | none => rs
+        | some sl =>
+          if sl.state == .error then (if st.permBroken then rs else (tryRepair cfg rs now master c).2)
+          else (markRunning cfg rs now p).2) := by
+  unfold repairSlave
+  generalize st.slave = o
+  generalize st.permBroken = pb
+  cases o with
+  | none => cases st.isMaster <;> cases st.isCascade <;> simp
+  | some sl =>
+    cases st.isMaster <;> cases st.isCascade <;> cases pb <;> simp <;> split <;> simp
+
+/-- where a re-pointing action of `repairSlave` can come from -/
+theorem repairSlave_changeMaster_mem (cfg : Cfg) (host : String) (st : NodeState) (master : String) (rs : Option RepairState)
+    (now : Int) (c p : Bool) (to : String)
+    (h : Act.changeMaster to ∈ (repairSlave cfg host st master rs now c p).1) : to = master := by
+  rw [repairSlave_fst] at h
+  have hcm := tryRepair_changeMaster_not_mem cfg rs now master c to
+  have hmr := fun hh => markRunning_mem cfg rs now p (Act.changeMaster to) hh
+  rcases List.mem_append.1 h with h | h
+  · split at h <;> simp at h
+  · split at h
+    · simpa using h
+    · split at h
+      · simp at h
+      · split at h
+        · simp at h
+        · rcases List.mem_append.1 h with h | h
+          · split at h
+            · simpa using h
+            · split at h <;> simp at h
+          · split at h
+            · split at h
+              · simp at h
+              · exact absurd h hcm
+            · exact absurd (hmr h) (by simp)
+
+/-- where a reset of the replication configuration by `repairSlave` can come from -/
+theorem repairSlave_reset_mem (cfg : Cfg) (host : String) (st : NodeState) (master : String) (rs : Option RepairState)
+    (now : Int) (c p : Bool) (to : String)
+    (h : Act.resetSlaveAlgorithm to ∈ (repairSlave cfg host st master rs now c p).1) :
+    st.permBroken = false ∧ (∃ sl, st.slave = some sl ∧ sl.state = .error) ∧
+    Act.resetSlaveAlgorithm to ∈ (tryRepair cfg rs now master c).1 := by
+  rw [repairSlave_fst] at h
+  have hmr := fun hh => markRunning_mem cfg rs now p (Act.resetSlaveAlgorithm to) hh
+  rcases List.mem_append.1 h with h | h
+  · split at h <;> simp at h
+  · split at h
+    · simp at h
+    · split at h
+      · simp at h
+      · split at h
+        · simp at h
+        · rename_i sl hsl
+          rcases List.mem_append.1 h with h | h
+          · split at h
+            · simp at h
+            · split at h <;> simp at h
+          · split at h
+            · rename_i he
+              split at h
+              · simp at h
+              · rename_i hp
+                exact ⟨by simpa using hp, ⟨sl, hsl, by simpa using he⟩, h⟩
+            · exact absurd (hmr h) (by simp)
+
+/-! ### the finite abstraction: enumeration of `Abs` and the table checks -/
+
+def allBool : List Bool := [false, true]
+def allSrc : List Src := [.master, .other, .none]
+def allRep : List Rep := [.running, .stopped, .errTemp, .errPerm]
+def allBudget : List Budget := [.noState, .mustWait, .mayStart, .mayReset, .exhausted]
+
+def allAbs : List Abs :=
+  allBool.flatMap fun ro => allBool.flatMap fun cm => allSrc.flatMap fun s => allRep.flatMap fun r =>
+  allBudget.flatMap fun b => allBool.flatMap fun o => allBool.map fun m => ⟨ro, cm, s, r, b, o, m⟩
+
+theorem mem_allAbs (n : Abs) : n ∈ allAbs := by
+  rcases n with ⟨ro, cm, src, rep, bud, off, mk⟩
+  simp only [allAbs, allBool, allSrc, allRep, allBudget, List.mem_flatMap, List.mem_map]
+  refine ⟨ro, by cases ro <;> simp, cm, by cases cm <;> simp, src, by cases src <;> simp, rep, by cases rep <;> simp,
+    bud, by cases bud <;> simp, off, by cases off <;> simp, mk, by cases mk <;> simp, rfl⟩
+
+/-- canonical or sink -/
+def Settled (n : Abs) : Prop := n.canonical = true ∨ n.sink = true
+
+instance (n : Abs) : Decidable (Settled n) := by unfold Settled; infer_instance
+
+/-- three fault-free passes already settle every abstract state (table split by the aggressive flag
+to keep each kernel evaluation short) … -/
+theorem settled_after_three_agg : ∀ n ∈ allAbs, ∀ c1 c2 c3 : Bool,
+    Settled (absPass true c3 true (absPass true c2 true (absPass true c1 true n))) := by
+  decide +kernel
+
+theorem settled_after_three_nonagg : ∀ n ∈ allAbs, ∀ c1 c2 c3 : Bool,
+    Settled (absPass false c3 true (absPass false c2 true (absPass false c1 true n))) := by
+  decide +kernel
+
+/-- … and settled states stay settled (whatever the environment does) -/
+theorem settled_stable_all : ∀ n ∈ allAbs, ∀ agg c t : Bool, Settled n → Settled (absPass agg c t n) := by
+  decide +kernel
+
+theorem canonical_stable_all : ∀ n ∈ allAbs, ∀ agg c t : Bool, n.canonical = true → (absPass agg c t n).canonical = true := by
+  decide +kernel
+
+theorem settled_after_three (agg c1 c2 c3 : Bool) (n : Abs) :
+    Settled (absPass agg c3 true (absPass agg c2 true (absPass agg c1 true n))) :=
+  match agg with
+  | true => settled_after_three_agg n (mem_allAbs n) c1 c2 c3
+  | false => settled_after_three_nonagg n (mem_allAbs n) c1 c2 c3
+
+theorem settled_stable (agg c t : Bool) (n : Abs) (h : Settled n) : Settled (absPass agg c t n) :=
+  settled_stable_all n (mem_allAbs n) agg c t h
+
 end RepairLemmas
